@@ -11,11 +11,17 @@
    tables.  So every rendering of a value decodes like every other, the encoder's own included
    (C03_renderings_decode_alike).
 
+   Conversely (Proofs/DecRefinesConv.v), whenever the decoder model succeeds on a rendering of a
+   regular value, what it returns IS a meaning of that value and it consumed exactly the
+   rendering (C03_decode_success_is_meaning).  Hence, with no hypothesis about meanings: whatever
+   decoding one rendering of a regular value yields, decoding any other rendering of it yields too
+   (C03_decoding_depends_on_the_value_only) - the property itself, on the model.
+
    Timestamps are not in `sv` (compact form: known finding C03-F1; millisecond form:
-   C03_date_ms_form). *)
+   C03_date_ms_form).  Regular (`reg`): no timestamp anywhere in the value. *)
 From Coq Require Import ZArith List Lia String Ascii.
 From GH Require Import Base.GoSem Base.Result Base.Utf8 Gen.GoLeaf Model.Scalars Model.Strings Spec.Grammar
-  Model.Encoder Model.Decoder Proofs.DecRefines.
+  Model.Encoder Model.Decoder Proofs.DecRefines Proofs.DecRefinesConv.
 Import ListNotations.
 Open Scope Z_scope.
 
@@ -46,6 +52,28 @@ Theorem C03_renderings_decode_alike : forall te tm bs1 bs2 hv st1 st2 d h',
 Proof. exact renderings_decode_alike. Qed.
 Print Assumptions C03_renderings_decode_alike.
 
+
+Theorem C03_decode_success_is_meaning : forall te tm bs hv rest st' d rest2 dst2,
+  hparse pstate0 bs = Ok (hv, rest, st') -> bytes_ok bs -> reg hv ->
+  decode te tm bs = Ok (d, rest2, dst2) ->
+  exists h', sv te tm hv [] d h' /\ rest2 = rest /\ dst2 = dst_of st' h'.
+Proof. exact decode_success_is_meaning. Qed.
+Print Assumptions C03_decode_success_is_meaning.
+
+Theorem C03_success_is_meaning_from_any_state : forall te tm f0 f st bs hv rest st' h g d rest2 dst2,
+  hparse_v f0 f st bs = Ok (hv, rest, st') -> bytes_ok bs -> reg hv ->
+  R_rd (readers_at te tm g) (dst_of st h) bs = Ok (d, rest2, dst2) ->
+  exists h', sv te tm hv h d h' /\ rest2 = rest /\ dst2 = dst_of st' h'.
+Proof. exact success_is_meaning_from_any_state. Qed.
+Print Assumptions C03_success_is_meaning_from_any_state.
+
+Theorem C03_decoding_depends_on_the_value_only : forall te tm bs1 bs2 hv st1 st2 d r1 s1,
+  hparse pstate0 bs1 = Ok (hv, [], st1) -> hparse pstate0 bs2 = Ok (hv, [], st2) ->
+  bytes_ok bs1 -> bytes_ok bs2 -> reg hv ->
+  decode te tm bs1 = Ok (d, r1, s1) ->
+  r1 = [] /\ s1 = dst_of st1 (dheap s1) /\ decode te tm bs2 = Ok (d, [], dst_of st2 (dheap s1)).
+Proof. exact renderings_decode_alike_iff. Qed.
+Print Assumptions C03_decoding_depends_on_the_value_only.
 
 (* ---- non-vacuity: two renderings of  [ &P{Name:"ab", Age:300, Tags:["x"], Next:nil}, []string{"y"} ]  ----
    A: x7a (fixed untyped list of 2); the class definition inside, in front of the instance; x60;
@@ -122,6 +150,23 @@ Proof.
   - eapply AB; try (vm_compute; reflexivity); try (apply bytes_okb_ok; vm_compute; reflexivity). exact S.
   - eapply AB; try (vm_compute; reflexivity); try (apply bytes_okb_ok; vm_compute; reflexivity). exact S.
   - eapply AC; try (vm_compute; reflexivity); try (apply bytes_okb_ok; vm_compute; reflexivity). exact S.
+Qed.
+
+(* the same three renderings through the hypothesis-free statement: decode A by computation,
+   conclude for B and C *)
+Example C03_value_only_nonvacuous : exists stB stC h',
+  reg hvP /\ decode teP tmP bsB = Ok (dP, [], dst_of stB h') /\ decode teP tmP bsC = Ok (dP, [], dst_of stC h').
+Proof.
+  assert (R : reg hvP) by (unfold hvP; repeat (constructor; cbn [snd])).
+  assert (DA : exists stA, hparse pstate0 bsA = Ok (hvP, [], stA) /\ decode teP tmP bsA = Ok (dP, [], dst_of stA hP))
+    by (eexists; split; vm_compute; reflexivity).
+  destruct DA as (stA & PA & DA).
+  assert (PB : exists stB, hparse pstate0 bsB = Ok (hvP, [], stB)) by (eexists; vm_compute; reflexivity).
+  assert (PC : exists stC, hparse pstate0 bsC = Ok (hvP, [], stC)) by (eexists; vm_compute; reflexivity).
+  destruct PB as (stB & PB). destruct PC as (stC & PC).
+  exists stB, stC, hP. split; [exact R|]. split.
+  - refine (proj2 (proj2 (C03_decoding_depends_on_the_value_only teP tmP bsA bsB _ _ _ _ _ _ PA PB _ _ R DA))); apply bytes_okb_ok; vm_compute; reflexivity.
+  - refine (proj2 (proj2 (C03_decoding_depends_on_the_value_only teP tmP bsA bsC _ _ _ _ _ _ PA PC _ _ R DA))); apply bytes_okb_ok; vm_compute; reflexivity.
 Qed.
 
 (* the specification's own example  x57 x90 x91 'Z'  (a variable-length untyped list [0, 1]) *)
